@@ -18,6 +18,7 @@ implementation  `io.Importer(*feeds).match(statement)`; per feed the single-feed
 model           `(c09 statement pool)` -> selected index, covers per feed, skeleton verdict per feed, the parser machine's
                 result per feed;  `(c09conf statement members route)` -> selection from the pool built from the configuration,
                 descriptor per section;  `(c09seq statements pool)` -> answers of one importer to a request history
+                (three columns: unbounded memo, LRU table of 128 entries as in the code, LRU table of 1 entry)
 oracle          the property text on ASTs (independent of the model): coverage = every table read is advertised or lies
                 under an advertised sub-statement; the returned feed covers and no covering feed has a higher priority;
                 MissingError iff nobody covers; the selected feed's parser does not report an unprovisioned source; a
@@ -788,6 +789,11 @@ HISTORIES = [
     Case(_QJ, ((None, (A, B)), (3, (A, B, C))), (('query', C, (('elem', C, 'name'),), None, (), None, (), None), _QA)),
     Case(A, ((4, (A,)), (4, (B,))), (B, A, B, C)),
     Case(_QB, ((1, (B,)), (9, (A,))), (_QA, _QA, _QB, _QA)),
+    # round 5: more distinct statements than functools.lru_cache keeps (128): the first ones are evicted and asked again,
+    # in between a statement served by the other feed and one nobody covers (C09_match_lru_history_independent)
+    Case(_QAL, ((1, (A,)), (9, (B,))),
+         tuple(retable(_QAL, ('lit', ('int', -1)), ('lit', ('int', k))) for k in range(1, 131))
+         + (_QB, retable(_QAL, ('lit', ('int', -1)), ('lit', ('int', 1))), C, _QAL_2, _QB)),
 ]
 
 
@@ -809,7 +815,7 @@ class C09(fw.Check):
             'brought up (unknown provider reference, the constructor raising RuntimeError / ConnectionRefusedError / ValueError / '
             'MissingError, a missing constructor argument), at whatever priority position; 12 % of all members map their sources to '
             'falsy handles (None, 0, \'\', (), False, 0.0, frozenset()); in 15 % of the pools one feed serves another catalog version '
-            '(same table name, another schema) of a table.  Plus request histories: 2..6 match() calls on ONE importer instance over 2..3 distinct statements with repetitions '
+            '(same table name, another schema) of a table.  Plus request histories (one of 136 calls over 132 distinct statements overflows the real lru_cache and re-asks evicted statements; the model answers with and without eviction): 2..6 match() calls on ONE importer instance over 2..3 distinct statements with repetitions '
             '(in 45 % one of them has a twin that is easily taken for it: over another catalog version of a table - both print the same - or with an integer literal of the same hash), each request '
             'a case of its own; a case is distinct by (statement, pool, sections, route, earlier requests) and non-trivial when a feed '
             'advertises a non-table or the pool has >= 2 feeds.  Compared with the model: selected index (single-shot, matchSeq for '
@@ -1213,6 +1219,13 @@ class C09(fw.Check):
             want = None if not isinstance(m, list) or m[0] != 'ok' else [None if x == 'none' else int(x[1]) for x in m[1]]
             if got != want:
                 self.diverge('answers of one importer instance to a request history', case_json(case), got, want)
+            # round 5: the model WITH the eviction of functools.lru_cache (capacity 128 as in the code, and capacity 1)
+            for label, col in (('lru_cache(128)', 2), ('lru_cache(1)', 3)):
+                lru = (None if want is None or len(m) <= col
+                       else [None if x == 'none' else int(x[1]) for x in m[col]])
+                if got != lru:
+                    self.diverge(f'answers of one importer instance to a request history, model with {label} eviction',
+                                 case_json(case), got, lru)
         for k, ans in zip(configured, answers[len(entries) + len(seqs):]):
             self._compare_configured(entries[k][0], entries[k][1], ans)
         for k, ans in zip(lazy, answers[len(entries) + len(seqs) + len(configured):]):
